@@ -50,6 +50,10 @@ func GetFileNameList(path string, ignoreList []string) (fields []Field, err erro
 		fileCreator := make([]byte, 4)
 
 		fileInfo, err := file.Info()
+		// The entry was removed or renamed (an upload that completes, a delete) after the directory was read.
+		if errors.Is(err, os.ErrNotExist) {
+			continue
+		}
 		if err != nil {
 			return fields, fmt.Errorf("error getting file info: %s: %w", file.Name(), err)
 		}
@@ -73,8 +77,9 @@ func GetFileNameList(path string, ignoreList []string) (fields []Field, err erro
 
 			if rFile.IsDir() {
 				dir, err := os.ReadDir(filepath.Join(path, file.Name()))
+				// As above: an alias whose folder cannot be read is left out, not the whole listing.
 				if err != nil {
-					return fields, err
+					continue
 				}
 
 				var c uint32
@@ -94,6 +99,9 @@ func GetFileNameList(path string, ignoreList []string) (fields []Field, err erro
 			}
 		} else if file.IsDir() {
 			dir, err := os.ReadDir(filepath.Join(path, file.Name()))
+			if errors.Is(err, os.ErrNotExist) {
+				continue
+			}
 			if err != nil {
 				return fields, fmt.Errorf("readDir: %w", err)
 			}
